@@ -9,6 +9,7 @@ import (
 	"net"
 	"runtime/debug"
 	"sync"
+	"sync/atomic"
 
 	tq "github.com/facebookincubator/tacquito"
 	"verif/h/simnet"
@@ -48,6 +49,11 @@ type Tap struct {
 	Recover bool
 	// Gate, if set, is called at handler entry (may block: C17).
 	Gate func(inv *Inv)
+	// ExtraWriters: every request gets this many recording writers registered on its Response
+	// (Response.RegisterWriter is public API; the reference server's span handler uses it). Set
+	// before the server starts.
+	ExtraWriters int
+	writerCalls  int64
 	// KeepBodies copies request bodies into the record.
 	KeepBodies bool
 }
@@ -197,8 +203,28 @@ func (m *monHandler) Handle(resp tq.Response, req tq.Request) {
 	if gate != nil {
 		gate(inv)
 	}
+	for i := 0; i < t.ExtraWriters; i++ {
+		resp.RegisterWriter(&recWriter{tap: t})
+	}
 	m.inner.Handle(&monResponse{Response: resp, tap: t, inv: inv, parent: m.id}, req)
 }
+
+// recWriter is a registered response writer that counts what it is handed.
+type recWriter struct {
+	tap   *Tap
+	calls int
+	last  []byte
+}
+
+func (w *recWriter) Write(ctx context.Context, p []byte) (int, error) {
+	w.calls++
+	w.last = append(w.last[:0], p...)
+	atomic.AddInt64(&w.tap.writerCalls, 1)
+	return len(p), nil
+}
+
+// WriterCalls is the total number of writes the extra writers have received.
+func (t *Tap) WriterCalls() int64 { return atomic.LoadInt64(&t.writerCalls) }
 
 type monResponse struct {
 	tq.Response
